@@ -314,6 +314,12 @@ func (d dynProfile) GetClaims() psatoken.IClaims {
 		return newLabelP2ClaimsNamed(d.name)
 	case "both-keys-p2":
 		return newBothKeysP2ClaimsNamed(d.name)
+	case "iface-on-p2":
+		return &IfaceRegClaims{IClaims: newPlainNamed(P2, d.name)}
+	case "iface-on-p1":
+		return &IfaceRegClaims{IClaims: newPlainNamed(P1, d.name)}
+	case "iface-on-nothing":
+		return &IfaceRegClaims{}
 	case "no-profile-field":
 		return &NoProfClaims{}
 	case "lookalike-keys":
@@ -343,6 +349,8 @@ func shapeType(shape string) string {
 		return "*checks.LabelP2Claims"
 	case "both-keys-p2":
 		return "*checks.BothKeysP2Claims"
+	case "iface-on-p2", "iface-on-p1":
+		return "*checks.IfaceRegClaims"
 	case "p1":
 		return "*psatoken.P1Claims"
 	case "p2":
@@ -1029,3 +1037,37 @@ type IfaceWrapClaims struct {
 
 func (o IfaceWrapClaims) MarshalCBOR() ([]byte, error) { return encoding.SerializeStructToCBOR(hem, &o) }
 func (o IfaceWrapClaims) MarshalJSON() ([]byte, error) { return encoding.SerializeStructToJSON(&o) }
+
+
+// ---- ONE registrable claims type that reaches its profile field through an
+// embedded INTERFACE: which JSON member declares the profile depends on the
+// VALUE the factory plugs in (a profile-1 or a profile-2 claims-set under the
+// profile's own name), not on the Go type; with nothing plugged in there is no
+// identifiable profile field ----
+
+type IfaceRegClaims struct {
+	psatoken.IClaims
+	Stamp *int64 `cbor:"-75701,keyasint,omitempty" json:"stamp-2,omitempty"`
+}
+
+func (o IfaceRegClaims) MarshalCBOR() ([]byte, error) { return encoding.SerializeStructToCBOR(hem, &o) }
+func (o *IfaceRegClaims) UnmarshalCBOR(data []byte) error {
+	return encoding.PopulateStructFromCBOR(hdm, data, o)
+}
+func (o IfaceRegClaims) MarshalJSON() ([]byte, error) { return encoding.SerializeStructToJSON(&o) }
+func (o *IfaceRegClaims) UnmarshalJSON(data []byte) error {
+	return encoding.PopulateStructFromJSON(data, o)
+}
+
+// newPlainNamed: a built-in claims-set of profile p set up for the name of a
+// derived profile.
+func newPlainNamed(p Prof, name string) psatoken.IClaims {
+	if p == P1 {
+		return &psatoken.P1Claims{Profile: &name, SwComponents: &psatoken.SwComponents[*psatoken.SwComponent]{}, CanonicalProfile: name}
+	}
+	ep := eat.Profile{}
+	if err := ep.Set(name); err != nil {
+		panic(err)
+	}
+	return &psatoken.P2Claims{Profile: &ep, SwComponents: &psatoken.SwComponents[*psatoken.SwComponent]{}, CanonicalProfile: name}
+}
